@@ -13,15 +13,22 @@ MUTATORS = {"append", "extend", "update", "pop", "clear", "sort", "insert", "rem
             "popitem", "add", "discard", "reverse", "appendleft", "popleft", "move_to_end", "difference_update",
             "intersection_update", "symmetric_difference_update"}
 # calls that return a fresh object (a shield): the result does not alias its arguments
-COPIERS = {"copy.deepcopy", "deepcopy", "json.loads", "json.dumps", "str", "int", "len", "bool", "repr", "tuple",
-           "frozenset", "sorted", "format_json", "isinstance", "id", "hash", "type"}
+COPIERS = {"copy.deepcopy", "deepcopy", "json.loads", "json.dumps", "str", "int", "len", "bool", "repr",
+           "frozenset", "format_json", "isinstance", "id", "hash", "type"}
 # shallow copiers: new container, shared children -- a mutation of the *container* is safe,
 # a mutation of something obtained from it is not.  Treated as aliasing (conservative).
 # library calls whose result never aliases a mutable argument
 PURE_RESULT = {"join", "format", "split", "strip", "startswith", "endswith", "encode", "decode", "lower", "upper",
                "replace", "match", "search", "fnmatchcase", "range", "enumerate_", "min", "max", "sum", "any", "all",
                "get_parts", "sub", "compile", "escape", "count", "index", "find"}
-SHALLOW = {"list", "dict", "set", "odict", "OrderedDict", "copy.copy"}
+SHALLOW = {"list", "dict", "set", "odict", "OrderedDict", "copy.copy", "copy", "tuple", "sorted"}
+
+
+def is_shallow(call: ast.Call) -> bool:
+    dn = dotted(call.func) or ""
+    if isinstance(call.func, ast.Attribute) and call.func.attr == "copy" and not call.args:
+        return False  # x.copy(): handled as unknown method (conservative) unless listed
+    return dn in SHALLOW and len(call.args) == 1
 
 
 def is_copier(call: ast.Call) -> bool:
@@ -67,7 +74,7 @@ class Effects:
         """names of parameters whose object (or something inside it) `expr` may be (not through copiers)"""
         out = set()
         summary = self._summary_fn(mod)
-        for k, n in self.prov(fn).aliases(expr, False, is_fresh=is_copier, call_summary=summary):
+        for k, n in self.prov(fn).aliases(expr, False, is_fresh=is_copier, call_summary=summary, is_shallow=is_shallow):
             if k == "param":
                 out.add(n.arg)  # type: ignore[attr-defined]
         return out
@@ -104,7 +111,7 @@ class Effects:
                 for v in vals:
                     ps |= self.param_sources(cfn, v, cm)
                     # contents of what is returned may alias params as well
-                    for k2, n2 in self.prov(cfn).aliases(v, True, is_fresh=is_copier, call_summary=self._summary_fn(cm)):
+                    for k2, n2 in self.prov(cfn).aliases(v, True, is_fresh=is_copier, call_summary=self._summary_fn(cm), is_shallow=is_shallow):
                         if k2 == "param":
                             ps.add(n2.arg)  # type: ignore[attr-defined]
             self._ret_active.discard(key)
